@@ -40,6 +40,11 @@ fn main() {
         }
         return;
     }
+    if args[1] == "bench" {
+        install_panic_hook();
+        bench_vsys();
+        return;
+    }
     if args[1] == "list" {
         for p in props::all() {
             println!("{}", p.info.id);
@@ -127,4 +132,15 @@ fn main() {
         }
         _ => usage(),
     }
+}
+
+#[allow(dead_code)]
+pub fn bench_vsys() {
+    let t = std::time::Instant::now();
+    let n = 20000;
+    for i in 0..n {
+        let r = vsys::run(&vsys::Setup::script(&format!("x=a{i}; probe \"$x\" ${{x#a}}")));
+        assert_eq!(r.trace.len(), 1);
+    }
+    println!("{} runs, {:.1} us each", n, t.elapsed().as_secs_f64() * 1e6 / n as f64);
 }
